@@ -91,6 +91,28 @@ Definition update_distance (a : astate) : option astate :=
               a_w2 := a_w2 a ++ [Some w2]; a_funcs := a_funcs a ++ [Some w2] |}
   end.
 
+(** ** a sampler round on an adaptive node ([samplers.py: Rejection.__init__ / _merge_batch /
+    extract_result -> _update_distances]; [AdaptiveDistanceSMC] runs one such [Rejection] per population)
+
+    [Rejection.__init__] calls [init_adaptation_round]; [_merge_batch] hands the summaries of the WHOLE
+    batch to [add_data] before, and independently of, the acceptance test ([batch[d] <= threshold] for
+    every nested distance), which only decides which rows are stored as samples; [extract_result]
+    calls [update_distance].  A batch is therefore its column-stacked summaries together with the
+    acceptance mask the sampler computed for it; the mask does not reach the node. *)
+Record sbatch := { sb_data : mat; sb_accept : list bool }.
+
+Definition merge_batch (a : astate) (b : sbatch) : astate := add_data_state a (sb_data b).
+
+Definition rejection_round (a : astate) (bs : list sbatch) : option astate :=
+  update_distance (fold_left merge_batch bs (init_round a)).
+
+(** consecutive rounds on one node (Rejection after Rejection, or the populations of an SMC run) *)
+Fixpoint rejection_rounds (a : astate) (rs : list (list sbatch)) : option astate :=
+  match rs with
+  | [] => Some a
+  | bs :: rest => match rejection_round a bs with Some a' => rejection_rounds a' rest | None => None end
+  end.
+
 (** squared weighted Euclidean distance: the "metric" the nested distance is instantiated with *)
 Definition weuclid2 (w : option (list Q)) (u v : list Q) : Q := metric_pow (MEuclid w) u v.
 
@@ -112,6 +134,9 @@ Definition sortQ (l : list Q) : list Q := fold_right insertQ [] l.
 
 Inductive op :=
 | OAdd (batch : list arr)      (* add_data( *batch ) *)
+| OBatch (batch : list arr) (accepted : list bool)
+                               (* a simulated batch reaching Rejection.update: its summaries and the rows that
+                                  passed the sampler's threshold test *)
 | OUpdate                      (* update_distance() *)
 | OInit                        (* init_adaptation_round() *)
 | OGen (vals : list arr)       (* node.generate(M, with_values = vals) *)
@@ -134,6 +159,14 @@ Definition step (obsd : list arr) (a : astate) (o : op) : astate * mobs :=
       | None => (a, MErr)
       | Some data =>
           let a' := add_data_state a data in
+          (a', MAdd (s_n (a_store a')) (bvec_list (s_mean (a_store a'))) (bvec_list (s_m2 (a_store a')))
+                    (scale2_of (a_store a')))
+      end
+  | OBatch b acc =>
+      match column_stack b with
+      | None => (a, MErr)
+      | Some data =>
+          let a' := merge_batch a {| sb_data := data; sb_accept := acc |} in
           (a', MAdd (s_n (a_store a')) (bvec_list (s_mean (a_store a'))) (bvec_list (s_m2 (a_store a')))
                     (scale2_of (a_store a')))
       end
@@ -283,6 +316,21 @@ Definition ok_step (obsd : list arr) (k : okst) (o : op) (i : iobs) : okst * boo
                | ISkip => true
                | _ => false
                end)
+      end
+  | OBatch b acc =>
+      (* the round's data are ALL rows of every batch, accepted or not *)
+      match column_stack b with
+      | None => (k, false)
+      | Some data =>
+          let R := k_round k ++ data in
+          let k' := {| k_round := R; k_lastvar := Some (map (colvar R) (seq 0 (width R)));
+                       k_vars := k_vars k; k_prev := k_prev k |} in
+          (k', Nat.eqb (length acc) (length data)
+               && match i with
+                  | IAdd n mean m2 sc => ok_add R n mean m2 sc
+                  | ISkip => true
+                  | _ => false
+                  end)
       end
   | OUpdate =>
       match k_lastvar k with
